@@ -11,11 +11,24 @@ fn vocab() -> Vec<&'static str> {
     vec![
         "a", "é", "€", ".", "*", "+", "?", "|", "(", ")", "(?:", "(?=", "(?!", "(?<=", "(?<!", "(?>", "(?<n>", "(?P<n>", "[", "]", "[^", "{", "}", "{2}", "{2,",
         "{18446744073709551615}", "{99999999999999999999}", "\\", "\\1", "\\2", "\\k<n>", "\\k<1>", "\\k<-1>", "\\k<99999999999>", "(?P=n)", "\\g<1>", "\\K", "\\G", "\\b", "\\d", "\\x{", "\\x41",
-        "\\u0041", "\\p{L}", "(?i)", "(?x)", "(?(1)", "(?(", "(?#", "#", " ", "^", "$", "\\z", "\\A", "\\h", "\\e", "-", ",", "1", "\\Q", "\\", "\u{0e01}",
+        "\\u0041", "\\p{L}", "(?i)", "(?x)", "(?(1)", "(?(", "(?#", "#", " ", "^", "$", "\\z", "\\A", "\\h", "\\e", "-", ",", "1", "\\Q", "\\", "\u{0e01}", "\\x{100000000}", "\\x{10ffff}", "\\x{110000}", "\\u{fffffffff}", "\\400000000", "\\g400000000", "(?(400000000)", "\\k<400000000>",
     ]
 }
 
 fn check(p: &str) -> Option<String> {
+    crate::MAX_ALLOC.store(0, std::sync::atomic::Ordering::Relaxed);
+    let r = check_inner(p);
+    if r.is_none() {
+        // memory proportional to the pattern: no single allocation of more than 16 MiB for these tiny patterns (the automata engine's own tables stay far below)
+        let mx = crate::MAX_ALLOC.load(std::sync::atomic::Ordering::Relaxed);
+        if mx > (16 << 20) {
+            return Some(format!("Regex::new on a {}-byte pattern made a single allocation of {} bytes", p.len(), mx));
+        }
+    }
+    r
+}
+
+fn check_inner(p: &str) -> Option<String> {
     match catch_unwind(AssertUnwindSafe(|| {
         if let Ok(tree) = Expr::parse_tree(p) {
             if let Some(mx) = tree.backrefs.iter().max() {
